@@ -87,6 +87,14 @@ CHECKS = {
              'malformed, blank) is applied to filter and breakpoint; the live view and the Stopped-at notices over the '
              'universe must equal the reference accumulation (three-valued), malformed input changes nothing.',
         ref='3/C12', engine='BFS'),
+    'C17': dict(
+        technique='lock-step explicit-state BFS over a (colour on, colour off) pair of real sessions driven by the '
+                  'same events, plus exhaustive paste-back of every coloured line/fragment the search produced',
+        text='After every step of every explored history (log lines of every construct, every command form) the '
+             'coloured output with escape sequences removed must equal the uncoloured output on both streams and in log '
+             'records, and the uncoloured run emits no escape sequence of its own; every coloured fragment printed is fed '
+             'back coloured and stripped to twin sessions, which must behave identically.',
+        ref='3/C17', engine='BFS'),
 }
 
 NOT_YET = 'check under construction in this round; will be claimed when mc/props/%s.py lands'
